@@ -96,12 +96,21 @@ FeedDrift(s0, s1, e) ==
           \cup When(e.err = "" /\ ~s1.ist.dec.err /\ (Len(s1.ist.dec.out) # app \/ (s0.preHole = 0 /\ stb # app)),
                     {"decoder: decoded byte count after a piece differs from the transcribed state machine"})
 
+\* C09, "zero for the Decoder": DecFeed's output is exactly what the input fed so far determines (payload bytes at once, the
+\* implicit FE FD of a short chunk as soon as the next header byte shows that the stream goes on); all of it must be consumable
+DecoderLag(s, e) ==
+  IF ~s.ist.on \/ s.ph # "dec" \/ e.panic # "" \/ e.err # "" \/ s.preHole > 0 THEN {}
+  ELSE LET d == IFeed(s, e).dec IN
+       When(~d.err /\ e.stable + s.D - Len(s.pre) < Len(d.out),
+            V("C09", "decoder lag: bytes determined by the input fed so far are not consumable"))
+
 Feed(s, e) ==
   LET bad ==
            When(e.panic # "", V(IF s.ph = "enc" THEN "C01" ELSE "C07", "panic while feeding: " \o e.panic))
       \cup When(e.panic = "" /\ s.ph = "enc" /\ e.err # "", V("C01", "encoder feed failed: " \o e.err))
       \cup (IF e.panic = "" THEN ObsCheck(s, e, s.D)
                  \cup When(e.stable < s.stable, V("C09", "consumable bytes shrank without a drain"))
+                 \cup DecoderLag(s, e)
             ELSE {})
   IN [st |-> [s EXCEPT !.pos = @ + e.n, !.vis = IF e.panic = "" THEN VisAfter(s, e, s.D) ELSE @,
                        !.total = e.total, !.stable = e.stable, !.ist = IFeed(s, e)],
